@@ -837,7 +837,7 @@ def main() -> int:
     samples: list = []
     digests: list = []
     fresh_checked = 0
-    limit = 7000 if args.tier == "thorough" else 1500
+    limit = max(7000 if args.tier == "thorough" else 1500, (deadline - __import__("time").time()) + 900)
     try:
         fresh_items = []
         for k in range(nfresh):
